@@ -1,6 +1,6 @@
 import Libp2pModel.Model.C47
 namespace Driver.C47
-open _root_.C47 (Cfg Circuit Op Out Variant step spec)
+open _root_.C47 (Cfg Circuit Op Out Variant step spec DOp DOut dstep ledgerStep specLedger)
 open Drv (Machine)
 
 structure MSt where
@@ -57,48 +57,43 @@ def parseC (tok : String) : Option (List Circuit) :=
     | some [id, sp, sc, dp, dc, a] => some ⟨id, sp, sc, dp, dc, a == 1⟩
     | _ => none
 
-def machine : Machine MSt Cfg where
+def machine : Machine MSt (Cfg × List Circuit) where
   init cfg := { cfg := parseCfg cfg, st := _root_.C47.St.empty }
-  specInit cfg := parseCfg cfg
+  specInit cfg := (parseCfg cfg, [])
   op m args :=
     let v := Variant.repaired
     let fin (st : _root_.C47.St) (o : String) : MSt × String := ({ m with st := st }, o ++ " " ++ snap st)
+    let viaD (d : DOp) (r : Nat) : MSt × String :=
+      match dstep v m.cfg m.st d with
+      | (st', .ok) => fin st' "ok"
+      | (st', .resAcc) => fin st' s!"acc{r}"
+      | (st', .resDeny) => fin st' "deny:ResourceLimitExceeded"
+      | (st', .circAcc _) => fin st' "acc"
+      | (st', .circDenyLimit) => fin st' "deny:ResourceLimitExceeded"
+      | (st', .circDenyNoRes) => fin st' "deny:NoReservation"
+      | (st', .stopFail) => fin st' "stopfail"
+      | (_, .panic) => (m, "panic")
+      | (_, .badOracle) => (m, "bad-oracle")
     match args.map String.toNat? with
     | [_, some p, some c] =>
       match args.head? with
-      | some "conn" => fin (step v m.cfg m.st (.established p c)).1 "ok"
-      | some "closeconn" => fin (step v m.cfg m.st (.closed p c)).1 "ok"
+      | some "conn" => viaD (.conn p c) 0
+      | some "closeconn" => viaD (.closeconn p c) 0
       | _ => (m, "bad-op")
     | [_, some p, some c, some r] =>
       if args.head? == some "rbegin" then
         ({ m with chan := m.chan ++ [(p, c, r == 1)] }, "sent " ++ snap m.st) else
       if args.head? != some "reserve" then (m, "bad-op") else
-      match step v m.cfg m.st (.resReq p c (r == 1) true) with
-      | (st1, .resAccept) =>
-        match step v m.cfg st1 (.resAccepted p c) with
-        | (st2, .none) => fin st2 s!"acc{r}"
-        | (_, _) => (m, "panic")
-      | (st1, _) => fin st1 "deny:ResourceLimitExceeded"
+      viaD (.reserve p c (r == 1)) r
     | [_, some p, some c, some q, pick] =>
       if args.head? != some "circuit" then (m, "bad-op") else
-      if args.getLast? == some "fail" then
-        -- oracle: the destination refused the STOP request after the relay had admitted the
-        -- circuit; the admission itself is validated (any active connection of `q` serves)
-        let dc := (m.st.conns.find? (fun e => e.1 == q && e.2.2)).map (·.2.1)
-        match step v m.cfg m.st (.circReq p c q true dc) with
-        | (st1, .circAccept id) => fin (step v m.cfg st1 (.circRemove id)).1 "stopfail"
-        | (st1, .circDenyLimit) => fin st1 "deny:ResourceLimitExceeded"
-        | (st1, .circDenyNoRes) => fin st1 "deny:NoReservation"
-        | (_, _) => (m, "bad-oracle")
-      else
-      match step v m.cfg m.st (.circReq p c q true pick) with
-      | (st1, .circAccept id) => fin (step v m.cfg st1 (.circAccepted id)).1 "acc"
-      | (st1, .circDenyLimit) => fin st1 "deny:ResourceLimitExceeded"
-      | (st1, .circDenyNoRes) => fin st1 "deny:NoReservation"
-      | (_, _) => (m, "bad-oracle")
+      -- `fail`: oracle, the destination refused the STOP request after the relay had admitted the
+      -- circuit; the admission itself is validated (any active connection of `q` serves)
+      if args.getLast? == some "fail" then viaD (.circuitFail p c q) 0
+      else viaD (.circuit p c q pick) 0
     | [_, some id] =>
       if args.head? != some "closecirc" then (m, "bad-op") else
-      fin (step v m.cfg m.st (.circRemove id)).1 "ok"
+      viaD (.closecirc id) 0
     | _ =>
       -- the split schedule of the race cases; the handler is the repaired one: a reservation with
       -- a request in flight is not reported as timed out
@@ -131,14 +126,33 @@ def machine : Machine MSt Cfg where
         ({ m with st := st1, inflight := [] },
          (if sorted.isEmpty then "none" else "+".intercalate sorted) ++ " " ++ snap st1)
       | _ => (m, "bad-op")
-  spec cfg _ outs :=
+  spec τ args outs :=
     match outs with
-    | "panic" :: _ => (cfg, "FAIL:panic")
-    | [_, r, c] =>
+    | "panic" :: _ => (τ, "FAIL:panic")
+    | [o, r, c] =>
       match parseR r, parseC c with
-      | some conns, some circs => (cfg, spec cfg conns circs)
-      | _, _ => (cfg, "FAIL:unparsable")
-    | _ => (cfg, "FAIL:unparsable")
+      | some conns, some circs =>
+        -- part 2: the ledger of circuits, kept from what the relay did (not from its tracker)
+        let nat (i : Nat) : Nat := ((args.getD i "").toNat?).getD 0
+        let (ledger, lv) : List Circuit × String :=
+          match args.head? with
+          | some "circuit" =>
+            if o == "acc" then
+              let (p, cc, q) := (nat 1, nat 2, nat 3)
+              -- the circuit this request created, with the destination connection recorded at acceptance
+              match circs.find? (fun k => k.src == p && k.srcConn == cc && k.dst == q
+                  && !τ.2.any (fun l => l.id == k.id)) with
+              | some k => (ledgerStep τ.2 (.circuit p cc q (some k.dstConn)) (.circAcc k.id), "ok")
+              | none => (τ.2, "FAIL:circ_ledger")
+            else (τ.2, "ok")
+          | some "closecirc" => if o == "ok" then (ledgerStep τ.2 (.closecirc (nat 1)) .ok, "ok") else (τ.2, "ok")
+          | some "closeconn" => if o == "ok" then (ledgerStep τ.2 (.closeconn (nat 1) (nat 2)) .ok, "ok") else (τ.2, "ok")
+          | _ => (τ.2, "ok")
+        let v1 := spec τ.1 conns circs
+        let v2 := specLedger τ.1 ledger
+        ((τ.1, ledger), if v1 != "ok" then v1 else if lv != "ok" then lv else v2)
+      | _, _ => (τ, "FAIL:unparsable")
+    | _ => (τ, "FAIL:unparsable")
 
 end Driver.C47
 
